@@ -317,6 +317,23 @@ class Runner:
                     else:
                         rejected(lambda: mgr.get_state(
                             alert or inv.states['metric'][(sel + 1) % len(inv.states['metric'])][0]))
+            elif kind in ('mk_ctx_existing', 'mk_ctx_existing_noadjust'):
+                # mk_context_state with a handle that is already in use (with and without version adjustment)
+                existing = sorted(mdib.context_states.objects, key=lambda x: x.Handle)
+                if not existing:
+                    return
+                victim = existing[sel % len(existing)]
+                others = [x for x in existing if x.Handle != victim.Handle]
+                with mdib.context_state_transaction() as mgr:
+                    if pre_op and others:
+                        st_ = mgr.get_context_state(others[sel % len(others)].Handle)
+                        st_.ContextAssociation = mdib.data_model.pm_types.ContextAssociation.DISASSOCIATED
+                        modified = True
+                    if kind == 'mk_ctx_existing':
+                        rejected(lambda: mgr.mk_context_state(victim.DescriptorHandle, victim.Handle))
+                    else:
+                        rejected(lambda: mgr.mk_context_state(victim.DescriptorHandle, victim.Handle,
+                                                              adjust_state_version=False))
             elif kind == 'ctx_unknown_modified':
                 with mdib.context_state_transaction() as mgr:
                     ent = mdib.entities.by_handle(inv.context_descriptors[sel % len(inv.context_descriptors)][0])
@@ -496,7 +513,8 @@ def st_history(inv, max_steps):
         st.tuples(st.just('abort'), op, st.integers(0, 6), nested).map(list),
         st.tuples(st.just('reject'), st.sampled_from(['wrong_type', 'dup_get', 'unknown', 'multistate_entity',
                                                       'add_existing', 'state_without_descr', 'ctx_unknown_modified',
-                                                      'write_entities_partial', 'write_entities_partial']),
+                                                      'write_entities_partial', 'write_entities_partial',
+                                                      'mk_ctx_existing', 'mk_ctx_existing_noadjust']),
                   st.booleans(), st.integers(0, 20), st.booleans()).map(list),
         st.tuples(st.just('commit_fail'), st.sampled_from(['ctx_remove_via_entity', 'dup_ctx_handle_add_state', 'ctx_remove_via_descriptor_tx']),
                   st.integers(0, 10)).map(list),
